@@ -1,7 +1,7 @@
 (* C09 — output lines are self-contained terminal text.  Statements only. *)
 From Coq Require Import List Bool NArith.
 Import ListNotations.
-From DV Require Import AnsiTerm AnsiTermProofs.
+From DV Require Import AnsiTerm AnsiTermProofs Trunc TruncFacts.
 
 (* ansi_term's ANSIStrings, decoded by an independently written SGR interpreter: from the
    default rendition, any list of styled strings is shown string by string in exactly its
@@ -41,3 +41,11 @@ Proof.
       + rewrite IH. destruct (decode st r) as [c1 s1]. destruct (decode s1 b) as [c2 s2]. reflexivity. }
   intros a b ca cb Ha Hb. rewrite G, Ha, Hb. reflexivity.
 Qed.
+
+(* truncation (side-by-side panels, --max-line-length) keeps every escape sequence of the line,
+   whole and in order, and adds those of the truncation mark only when it cuts: what was
+   balanced before the cut stays balanced *)
+Theorem C09_truncate_keeps_sequences : forall fill dw items tail,
+  ansi_of (truncate_str fill dw items tail) =
+  ansi_in items ++ (if Nat.leb (items_width items) dw then [] else ansi_in tail).
+Proof. exact truncate_str_keeps_sequences. Qed.
